@@ -3,9 +3,15 @@
    else; k READs deliver the next k constants of the segment in order; reading past the end is OUT OF DATA and changes
    nothing; RESTORE sets the pointer to the resolved data address; CLEAR rewinds to 0; a line's symbol records the number
    of constants before the line; appending a fragment appends its constants.
-   NOT proved: that the segment of a whole compiled program is the concatenation of its DATA statements in source order
-   (needs an induction over all statement kinds of the code generator).  Decided by the C09 monitor against Spec/Sem.v,
-   whose DATA list is defined directly on the AST. *)
+   Proved (Proofs/DataSeg.v, Proofs/SymSeg.v), by induction over ALL statement kinds of the code generator and over all
+   programs: a statement that compiles without error contributes exactly its DATA constants, in the reference
+   semantics' order (IF: THEN part, then ELSE part); the data segment of the compiled and linked program is Sem.all_data
+   -- the DATA constants in source order, wherever the DATA lines sit (C09_data_segment_is_source_order); statement code
+   only defines negative local symbols above the fragment's counter, so appending never disturbs a line symbol, and the
+   symbol of line n holds the address RESTORE n receives: Sem.data_index_of_line n, the number of constants in the
+   lines before n (C09_restore_address).
+   NOT proved: conversion of the value read to the variable's type "exactly as assignment would" is the shared OpPop
+   path (C06's theorems), not restated here; edit histories before the run are C04's business. *)
 From BL Require Import Base.Prelude Mach.Val Mach.Compile Mach.Runtime Proofs.DataRead.
 Local Open Scope N_scope.
 
@@ -51,3 +57,55 @@ Theorem C09_line_symbol_data_address : forall n l l', l_push_symbol n l = (l', O
   exists a, zassoc_get n (l_syms l') = Some (a, lenN (l_data l)).
 Proof. exact line_symbol_data_address. Qed.
 Print Assumptions C09_line_symbol_data_address.
+
+(* ---- the data segment of whole programs (Proofs/DataSeg.v, Proofs/SymSeg.v) ---- *)
+From BL Require Import Lang.Ast Spec.Sem Proofs.Flow Proofs.DataSeg Proofs.SymSeg.
+
+(* expressions and variables never put anything into the data segment, whatever happens while compiling them *)
+Theorem C09_expressions_have_no_data : forall e, l_data (snd (fst (cg_expr e))) = [].
+Proof. exact cg_expr_nodata. Qed.
+Print Assumptions C09_expressions_have_no_data.
+
+(* every statement kind: compiled without error, it contributes exactly its DATA constants in the reference order *)
+Theorem C09_statement_data : forall s, snd (cg_stmt s) = [] -> wf_data s = true ->
+  map Some (l_data (snd (fst (cg_stmt s)))) = stmt_data s.
+Proof. exact cg_stmt_data. Qed.
+Print Assumptions C09_statement_data.
+
+(* linking does not touch the data segment *)
+Theorem C09_link_keeps_data : forall p, l_data (pg_link (program_link p)) = l_data (pg_link p).
+Proof. exact program_link_data. Qed.
+Print Assumptions C09_link_keeps_data.
+
+(* any program, any layout: the segment READ indexes into is the DATA constants in source order *)
+Theorem C09_data_segment_is_source_order : forall prog dp,
+  pg_errors (compile_asts prog dp) = [] -> forallb (fun e => forallb wf_data (snd e)) prog = true ->
+  map Some (l_data (pg_link (program_link (compile_asts prog dp)))) = all_data prog.
+Proof. exact data_segment_is_source_order. Qed.
+Print Assumptions C09_data_segment_is_source_order.
+
+(* statement code keeps its symbols to itself: negative, above the fragment's counter *)
+Theorem C09_statement_symbols_local : forall s, snd (cg_stmt s) = [] ->
+  (l_cur (snd (fst (cg_stmt s))) <= 0)%Z
+  /\ forall k v, In (k, v) (l_syms (snd (fst (cg_stmt s)))) -> (l_cur (snd (fst (cg_stmt s))) <= k < 0)%Z.
+Proof. exact cg_stmt_inv. Qed.
+Print Assumptions C09_statement_symbols_local.
+
+(* RESTORE n: the data address recorded for line n is the number of constants in the lines before it *)
+Theorem C09_restore_address : forall before n ss after dp,
+  let prog := before ++ (n, ss) :: after in
+  pg_errors (compile_asts prog dp) = [] -> forallb (fun e => forallb wf_data (snd e)) prog = true ->
+  (forall e, In e before -> fst e < n) -> (forall e, In e after -> n < fst e) ->
+  exists code_addr,
+    zassoc_get (Z.of_N n) (l_syms (pg_link (compile_asts prog dp))) = Some (code_addr, data_index_of_line prog n).
+Proof. exact restore_address. Qed.
+Print Assumptions C09_restore_address.
+
+(* the premises are met by a parsed program with DATA before, inside (IF branches) and after the code that reads it *)
+Theorem C09_demo_program :
+  lenN data_demo = 5 /\ pg_errors (compile_asts data_demo 0) = []
+  /\ forallb (fun e => forallb wf_data (snd e)) data_demo = true
+  /\ l_data (pg_link (program_link (compile_asts data_demo 0))) = [VInt 1; VSng 3223322624; VStr [88]; VInt 7; VInt 9; VInt (-3)]
+  /\ zassoc_get 30%Z (l_syms (pg_link (compile_asts data_demo 0))) = Some (4, 2) /\ data_index_of_line data_demo 30 = 2.
+Proof. exact data_demo_facts. Qed.
+Print Assumptions C09_demo_program.
